@@ -209,6 +209,19 @@ def o4_o5(prog, rep):
     if ok:
         ok = any(op == "!=" and L[0] == "&" and L[2] == ("c", POLLERR | POLLHUP) for cond, truth in g.edge_conds(wid[0]) for op, L, R, _, _ in cond_atoms(cond, truth))
     rep.check(ok, "O5-stale", "error/hang-up widening adds only the bits registered in .events", g.loc, "", function=g.name, construct="widen")
+    # ... and takes effect for the entry it was computed for: from the widening, the scan cannot move on to another entry
+    # without passing the readiness tests (a hang-up on a descriptor with nothing readable must still run its callback)
+    if ok:
+        tests = [b for b in g.blocks.values() if b.cond is not None and any(
+            L[0] == "&" and fieldname(L[1]) == "revents" and L[2] in (("c", POLLIN), ("c", POLLOUT)) for op, L, R, _, _ in cond_atoms(b.cond, True))]
+        moves = [e for e in g.all_elems() if ir.step(e) and ir.step(e)[1][0] == "v" and ir.step(e)[1][1] == "fdscanpos"]
+        okw = len(tests) >= 2 and bool(moves)
+        if okw:
+            first = max(tests, key=lambda b: b.id)      # clang numbers blocks backwards: the highest id is the earliest test
+            okw = all(not g.reach_avoiding(wid[0].block.id, m.block.id, first.id) or m.block.id == wid[0].block.id for m in moves)
+        rep.check(okw, "O5-stale", "after the error/hang-up widening the same entry's readiness tests run before the scan moves on", wid[0].where,
+                  "a path leads from the widening to the cursor step without passing the POLLIN/POLLOUT tests: a descriptor that only hung up or failed "
+                  "is skipped for ever although a callback is registered for it", function=g.name, construct="widen-order")
     # selection: the scan dispatches only under a set revents bit
     for ld in [e for e in g.all_elems() if e.is_assign and e.op == "=" and fieldname(norm(e.kid(1))) in ("reader", "writer")]:
         fld = fieldname(norm(ld.kid(1)))
